@@ -165,8 +165,11 @@ class Sim:
         self.chron_mod.append = chron_append
 
         def next_job_batch():
+            # units released by THIS batch = targets that enter `do` now (a job whose dispatch was
+            # interrupted keeps its earlier targets in `do` until the next tick)
+            before = {id(j): set(j.get('do')) for j in sch.que}
             jobs = o['next_job_batch']()
-            sim._on_release(jobs)
+            sim._on_release(jobs, before)
             return jobs
 
         def organize(task_names, runid=None, targets=None, event=None):
@@ -217,6 +220,10 @@ class Sim:
         orig_rerunid = farm.rerunid
 
         def rerunid(job):
+            if getattr(sim, 'fail_next_runid', 0) and job.get('runid', None) is None:
+                # the database refuses this run-id allocation (injected, see ev_dispatch)
+                sim.fail_next_runid -= 1
+                raise RuntimeError('db.next() failure injected by vf')
             nxt = None
             try:
                 nxt = sim.db.next()
@@ -299,10 +306,10 @@ class Sim:
     def violation(self, clause, detail, mech=None):
         self.bad.append((clause, detail, mech))
 
-    def _on_release(self, jobs):
+    def _on_release(self, jobs, before=None):
         batch = []
         for job in jobs:
-            for t in sorted(job.get('do')):
+            for t in sorted(set(job.get('do')) - (before or {}).get(id(job), set())):
                 self.seq += 1
                 r = Release(self.seq, job.tag, t, self.last_org.get(job.tag), self.epoch)
                 self.releases.append(r)
@@ -427,20 +434,11 @@ class Sim:
     def ev_dispatch(self, ev):
         if ev.get('fault') == 'db.next':
             # the database refuses one run-id allocation during this tick (dispatch anticipates that)
-            orig = self.db.next
-            state = {'n': 0}
-
-            def failing_next():
-                state['n'] += 1
-                if state['n'] == 1:
-                    raise RuntimeError('db.next() failure injected by vf')
-                return orig()
-
-            self.db.next = failing_next
+            self.fail_next_runid = 1
             try:
                 self.farm.dispatch()
             finally:
-                self.db.next = orig
+                self.fail_next_runid = 0
             return
         self.farm.dispatch()
 
